@@ -275,6 +275,8 @@ class Surface(Numbered_MCNP_Object):
             modifier.value = "*"
         elif self.is_white_boundary:
             modifier.value = "+"
+        else:
+            modifier.value = None
         if self.transform is not None:
             self._old_transform_number.value = self.transform.number
             self._old_transform_number.is_negative = False
@@ -283,7 +285,7 @@ class Surface(Numbered_MCNP_Object):
             self._old_periodic_surface.value = self.periodic_surface.number
             self._old_periodic_surface.is_negative = True
             self._tree.nodes["pointer"] = self._old_periodic_surface
-        elif self._tree["pointer"].value is not None:
+        else:
             # the transform / periodic link was deleted through the API: the card must not keep the old pointer
             self._tree["pointer"].value = None
 
